@@ -316,6 +316,66 @@ theorem civil_valid (z : Int) :
     | (have := h2 c1; simp only [decide_eq_true_eq] at *; omega)
     | (have := hn2 c1; simp only [*, if_true, if_false] at this; omega)
 
+/-- civil date ↦ days ↦ civil date is the identity on valid dates -/
+theorem civil_days_roundtrip (y m d : Int) (hm0 : 1 ≤ m) (hm1 : m ≤ 12) (hd0 : 1 ≤ d) (hd1 : d ≤ daysInMonth y m) :
+    civilFromDays (daysFromCivil y m d) = (y, m, d) := by
+  have hlen : d ≤ (if m = 2 then 29 else if m = 4 ∨ m = 6 ∨ m = 9 ∨ m = 11 then 30 else 31) := by
+    unfold daysInMonth at hd1
+    split_ifs at hd1 ⊢ <;> omega
+  obtain ⟨hmd, hdoy0, hdoy1, hfeb, hjf⟩ := monthDay_of_doy m d hm0 hm1 hd0 hlen
+  -- the year of the era and the day of the era
+  obtain ⟨y0, hy0⟩ : ∃ y0, y0 = (if m ≤ 2 then y - 1 else y) := ⟨_, rfl⟩
+  have hleap : doyOfMonthDay m d = 365 → ((y0 % 400 + 1) % 4 = 0 ∧ ((y0 % 400 + 1) % 100 ≠ 0 ∨ y0 % 400 + 1 = 400)) := by
+    intro h
+    obtain ⟨rfl, rfl⟩ := hfeb.1 h
+    simp only [daysInMonth, isLeap, if_true] at hd1
+    have hy : y0 = y - 1 := by simpa using hy0
+    by_cases hl : (y % 4 = 0 ∧ (y % 100 ≠ 0 ∨ y % 400 = 0))
+    · obtain ⟨h4, h100⟩ := hl
+      subst hy
+      refine ⟨by omega, ?_⟩
+      rcases h100 with h | h
+      · left; omega
+      · right; omega
+    · simp [hl] at hd1
+  have hyoe := yoe_unique (yearStart (y0 % 400) + doyOfMonthDay m d) (y0 % 400) (by omega) (by omega) (by omega)
+    (by
+      by_cases h365 : doyOfMonthDay m d = 365
+      · right; have := hleap h365; omega
+      · left; omega)
+  have hdoe0 : 0 ≤ yearStart (y0 % 400) + doyOfMonthDay m d := by unfold yearStart; omega
+  have hdoe1 : yearStart (y0 % 400) + doyOfMonthDay m d < 146097 := by
+    by_cases h365 : doyOfMonthDay m d = 365
+    · have := hleap h365; unfold yearStart; omega
+    · unfold yearStart; omega
+  have hz : daysFromCivil y m d + 719468 = y0 / 400 * 146097 + (yearStart (y0 % 400) + doyOfMonthDay m d) := by
+    simp only [daysFromCivil, ← hy0]; omega
+  have hq : (daysFromCivil y m d + 719468) / 146097 = y0 / 400 := by rw [hz]; omega
+  have hr : (daysFromCivil y m d + 719468) % 146097 = yearStart (y0 % 400) + doyOfMonthDay m d := by rw [hz]; omega
+  simp only [civilFromDays, hq, hr, hyoe]
+  have e : yearStart (y0 % 400) + doyOfMonthDay m d - yearStart (y0 % 400) = doyOfMonthDay m d := by omega
+  rw [e, hmd]
+  simp only [Prod.mk.injEq, and_true]
+  split_ifs at hy0 ⊢ <;> omega
+
+
+/-- fields ↦ instant ↦ fields is the identity on valid stamps: `met_to_string (string_to_met_utc s) = s` -/
+theorem stamp_unix_roundtrip (s : Stamp) (hv : s.Valid) : stampOfUnixUs (unixUsOfStamp s) = s := by
+  obtain ⟨h1, h2, h3, h4, h5, h6, h7, h8, h9, h10, h11, h12⟩ := hv
+  have hq : unixUsOfStamp s / usPerDay = daysFromCivil s.year s.month s.day := by
+    simp only [unixUsOfStamp, usPerDay]; omega
+  have hr : unixUsOfStamp s % usPerDay = s.hour * 3600000000 + s.minute * 60000000 + s.second * 1000000 + s.micro := by
+    simp only [unixUsOfStamp, usPerDay]; omega
+  simp only [stampOfUnixUs, hq, hr, civil_days_roundtrip s.year s.month s.day h1 h2 h3 h4]
+  cases s
+  simp only [Stamp.mk.injEq, true_and] at *
+  omega
+
+theorem date_string_roundtrip (epoch : Int) (s : Stamp) (hv : s.Valid) : metToStamp epoch (stampToMet epoch s) = s := by
+  simp only [metToStamp, stampToMet]
+  rw [show unixUsOfStamp s - epoch * 1000000 + epoch * 1000000 = unixUsOfStamp s by omega]
+  exact stamp_unix_roundtrip s hv
+
 /-- instant ↦ fields ↦ instant is the identity, for every microsecond -/
 theorem unix_stamp_roundtrip (t : Int) : unixUsOfStamp (stampOfUnixUs t) = t := by
   simp only [unixUsOfStamp, stampOfUnixUs, usPerDay]
